@@ -7,6 +7,8 @@ C05.d totality: no raise / unguarded [0] on filter results in code reachable fro
 C05.e a (verdict, reason) pair is never used as a truth value
 C05.f no name-equality shortcut around the structural comparison
 C05.g an unmatched dependence is decided, never skipped
+C05.h byte stores take part in the comparison
+C05.i the comparison is sensitive to every component of a specification
 """
 import ast
 
